@@ -38,14 +38,17 @@ def shard_table(spec):
     grammars = {d: impl.make_grammar_decoder(d)[0] for d in impl.DIALECTS}
     for o in range(lo, hi):
         c = chr(o)
-        for d, g in grammars.items():
+        order = loaders.dialect_order(o)
+        for di, d in enumerate(order):
+            g = grammars[d]
             acc.n += 1
             try:
                 got = g.char_allowed(c)
             except Exception as e:  # noqa: BLE001
                 got = "raised " + type(e).__name__
             if got is not spec_allowed(d, o):
-                acc.violation({"kind": "table", "dialect": d, "codepoint": o}, "character-table:" + d,
+                acc.violation({"kind": "table", "dialect": d, "codepoint": o, "prior_dialects": order[:di]},
+                              "character-table:" + d,
                               "U+%04X: char_allowed gives %r, the specification says %r" % (o, got, spec_allowed(d, o)),
                               sig="table|%s|%d" % (d, o))
             else:
@@ -71,6 +74,9 @@ POSITIONS = [
     ("multi-line-string-line-2", 'x = 0\nk = "a\n  b{c}d"\n', 10, "any"),
     ("multi-line-string-line-3", "k = 'a\n\n{c}'\n", 4, "any"),
     ("multi-line-comment-line-2", "/* a\n b{c} */ k = 1\n", 0, "comment"),
+    ("after-bare-cr", 'x = 0\ry = 1\rk = "a{c}b"\r', 16, "any"),
+    ("after-lf-cr", "x = 0\n\rk = a{c}b\n", 11, "any"),
+    ("after-crlf", 'x = 0\r\nk = "a{c}b"\r\n', 11, "any"),
     ("after-end", "k = 1\nEND\n{c}{c} junk", None, "after-end"),
     ("immediately-after-end", "k = 1\nEND{c}junk", None, "after-end-forbidden-only"),
     # a stray character in the gaps of block statements, sequences and units
@@ -184,9 +190,12 @@ def check(d, posname, o):
 def shard_positions(cps):
     acc = Acc()
     for o in cps:
-        for d in ("PVL", "ODL", "PDS3", "OMNI", "ISIS"):
+        order = loaders.dialect_order(o, ("PVL", "ODL", "PDS3", "OMNI", "ISIS"))
+        for di, d in enumerate(order):
             for p in POSITIONS:
                 vs, kind = check(d, p[0], o)
+                for v in vs:
+                    v["case"]["prior_dialects"] = order[:di]
                 acc.n += 1
                 if d == "ISIS":
                     # not claimed by the property: information only
@@ -228,9 +237,14 @@ def run(ctx):
 
 def replay(case):
     if case["kind"] == "table":
+        for d in case.get("prior_dialects", []):
+            impl.make_grammar_decoder(d)[0].char_allowed(chr(case["codepoint"]))
         g = impl.make_grammar_decoder(case["dialect"])[0]
         got = g.char_allowed(chr(case["codepoint"]))
         if got is not spec_allowed(case["dialect"], case["codepoint"]):
             return [{"case": case, "diagnosis": "character-table:" + case["dialect"], "detail": repr(got)}]
         return []
+    for d in case.get("prior_dialects", []):
+        for p in POSITIONS:
+            check(d, p[0], case["codepoint"])
     return check(case["dialect"], case["position"], case["codepoint"])[0]
